@@ -231,6 +231,7 @@ struct Outcome {
     rec: Rec,
     rec0: Rec,
     rec1: Rec,
+    curlen: u64,
     panicked: bool,
 }
 
@@ -238,7 +239,7 @@ fn run_case(ops: &[Op], dmg: &Dmg) -> Outcome {
     let tmp = Tmp::new();
     let dir = tmp.0.join("wal");
     let mut out = Outcome { ops_ok: true, seglens: vec![], live: vec![], vfirst: 0, vlast: 0, reads: vec![],
-        rec: Rec::Err, rec0: Rec::Err, rec1: Rec::Err, panicked: false };
+        rec: Rec::Err, rec0: Rec::Err, rec1: Rec::Err, curlen: 0, panicked: false };
     let r = catch(AssertUnwindSafe(|| {
         let mut wal = Wal::create(&dir).ok();
         let mut ok = wal.is_some();
@@ -292,6 +293,7 @@ fn run_case(ops: &[Op], dmg: &Dmg) -> Outcome {
     // ---- reopen, read, recover
     match catch(AssertUnwindSafe(|| Wal::open(&dir))) {
         Caught::Done(Ok(w)) => {
+            out.curlen = segs.last().and_then(|p| std::fs::metadata(p).ok()).map(|m| m.len()).unwrap_or(0);
             out.reads = read_all(&w);
             out.rec = recover_into(&w, &tmp.0.join("db_all"), None);
             out.rec0 = recover_into(&w, &tmp.0.join("db_0"), Some(0));
@@ -333,12 +335,12 @@ fn dmg_term(d: &Dmg, o: &Outcome) -> String {
     }
 }
 fn case_term(ops: &[Op], d: &Dmg, o: &Outcome) -> String {
-    format!("Run {} {} (Obs {} {} {} {} {} {} {})",
+    format!("Run {} {} (Obs {} {} {} {} {} {} {} {})",
         clist(&ops.iter().map(op_term).collect::<Vec<_>>()), dmg_term(d, o), cbool(o.ops_ok && !o.panicked),
         clist(&o.seglens.iter().map(|v| v.to_string()).collect::<Vec<_>>()),
         clist(&o.live.iter().map(rd_term).collect::<Vec<_>>()),
         clist(&o.reads.iter().map(rd_term).collect::<Vec<_>>()),
-        rec_term(&o.rec), rec_term(&o.rec0), rec_term(&o.rec1))
+        rec_term(&o.rec), rec_term(&o.rec0), rec_term(&o.rec1), o.curlen)
 }
 
 // ------------------------------------------------------------------ checksum cross-check
@@ -361,12 +363,14 @@ fn crc_case(f: &Fr, reopen: bool) -> Option<String> {
 }
 
 // ------------------------------------------------------------------ the property's oracle, in Rust (search mode and `nontrivial`)
-/// counters of the writer that decide the recorded finding classes (same rule as Model.Wal.known_ops)
+/// counters of a writer WITHOUT the repairs 3b478c2 / 68f3fa5: used only to label histories that
+/// go through the repaired paths (1 append after reopening a non-empty segment, 2 append after
+/// truncate at a cursor > 0, 3 truncate with frames buffered) in the case distribution
 #[derive(Clone, Copy)]
 struct Trk { cur: u64, off: u64, pend: u64, flen: u64, sync: bool, why: u8 }
 fn trk_flush(t: &mut Trk) { if t.pend > 0 { t.flen = t.flen.max(t.cur + t.pend); t.cur += t.pend; t.pend = 0; } }
 /// first finding class triggered by the op sequence (0 = none)
-fn known_ops(ops: &[Op]) -> u8 {
+fn repaired_path(ops: &[Op]) -> u8 {
     let mut t = Trk { cur: 0, off: 0, pend: 0, flen: 0, sync: true, why: 0 };
     for op in ops {
         let nw = match op { Op::W(_) => 1, Op::B(fs, _) => fs.len() as u64, _ => 0 };
@@ -463,36 +467,30 @@ fn spec_ok(ops: &[Op], d: &Dmg, o: &Outcome) -> bool {
     let by = |fid: u64| -> Vec<Fr> { vp.iter().filter(|f| f.fid == fid).cloned().collect() };
     o.reads == expect_reads(&vp) && rec_ok(&vp, &o.rec) && rec_ok(&by(0), &o.rec0) && rec_ok(&by(1), &o.rec1)
 }
-/// finding class of a case (0 = none): the writer classes first, then the two reader classes
+/// finding class of a case (0 = none): same rule as Model.WalSpec.dmg_class
+///   6  the first destroyed frame slot is all zero bytes after the fault (accepted as a frame)
+///   7  a closed segment cut exactly at a frame boundary, frames in a later segment
 fn known_class(ops: &[Op], d: &Dmg, o: &Outcome) -> u8 {
-    let k = known_ops(ops);
-    if k != 0 { return k; }
     let log = log_of(ops);
     if let Some(s) = dmg_seg(d) {
-        if s + 1 < log.len() {
-            let n = intact(log[s].len() as u64, d, o.vfirst, o.vlast) as usize;
-            if n < log[s].len() && log[s + 1..].iter().any(|g| !g.is_empty()) { return 4; }
-        }
         if s < log.len() {
             let len = log[s].len() as u64;
             let n = intact(len, d, o.vfirst, o.vlast);
-            if let Dmg::Zero(_, off, k) = d {
-                if n < len && *k > 0 && *off < len * FRAME {
-                    let end = (*off + *k).min(len * FRAME);
-                    let whole = *off <= n * FRAME && (n + 1) * FRAME <= end;
-                    let overlapped = !((n + 1) * FRAME <= *off || end <= n * FRAME);
-                    let cls = if !overlapped { 0 } else if whole { 1 } else if n == *off / FRAME { o.vfirst } else { o.vlast };
-                    if cls == 1 { return 6; }
+            if n < len {
+                if let Dmg::Zero(_, off, k) = d {
+                    if *k > 0 && *off < len * FRAME {
+                        let end = (*off + *k).min(len * FRAME);
+                        let whole = *off <= n * FRAME && (n + 1) * FRAME <= end;
+                        let overlapped = !((n + 1) * FRAME <= *off || end <= n * FRAME);
+                        let cls = if !overlapped { 0 } else if whole { 1 } else if n == *off / FRAME { o.vfirst } else { o.vlast };
+                        if cls == 1 { return 6; }
+                    }
+                }
+                if let Dmg::Cut(_, off) = d {
+                    if *off <= len * FRAME && *off % FRAME == 0 && log[s + 1..].iter().any(|g| !g.is_empty()) { return 7; }
                 }
             }
         }
-    }
-    let vp = valid_prefix(&log, d, o.vfirst, o.vlast);
-    if log.len() > 1 {
-        // what a reader that only looks at the last segment can see
-        let n_before: usize = log[..log.len() - 1].iter().map(|g| g.len()).sum();
-        let last_only: Vec<Fr> = vp[n_before.min(vp.len())..].to_vec();
-        if expect_reads(&last_only) != expect_reads(&vp) { return 5; }
     }
     0
 }
@@ -505,8 +503,7 @@ fn gen_fr(rng: &mut Rng) -> Fr {
     let fill = if rng.chance(1, 6) { 0 } else { *rng.pick(&[1u8, 2, 3, 7, 0x55, 0xAA, 0xFF, 9, 17, 200]) };
     Fr { fid, page, dbs, fill }
 }
-/// `clean`: avoid the recorded writer finding classes (the generator steers, known_ops decides)
-fn gen_ops(rng: &mut Rng, maxlen: usize, clean: bool) -> Vec<Op> {
+fn gen_ops(rng: &mut Rng, maxlen: usize, _clean: bool) -> Vec<Op> {
     let n = 1 + rng.below(maxlen as u64) as usize;
     let mut ops: Vec<Op> = vec![];
     let mut tries = 0;
@@ -522,7 +519,6 @@ fn gen_ops(rng: &mut Rng, maxlen: usize, clean: bool) -> Vec<Op> {
             _ => Op::O,
         };
         ops.push(op);
-        if clean && known_ops(&ops) != 0 { ops.pop(); }
     }
     ops
 }
@@ -694,7 +690,7 @@ fn gen(a: &Args) {
         let nfr: u64 = ops.iter().map(|o| match o { Op::W(_) => 1, Op::B(fs, _) => fs.len() as u64, _ => 0 }).sum();
         let hazard = ops.iter().any(|o| matches!(o, Op::O | Op::T | Op::R | Op::S(false) | Op::B(_, true)));
         let nontrivial = nfr >= 2 && (hazard || d != Dmg::None);
-        let kind = if base == "random" || base == "exhaustive" || base == "exhaustive_dmg" { format!("{}_class{}_{}", base, k, dmg_kind(&d)) } else { base.to_string() };
+        let kind = if base == "random" || base == "exhaustive" || base == "exhaustive_dmg" { format!("{}_class{}_path{}_{}", base, k, repaired_path(&ops), dmg_kind(&d)) } else { base.to_string() };
         w.push(term, line_of(&ops, &d), nontrivial, &kind);
     }
     for (f, r) in crcs {
